@@ -267,6 +267,9 @@ pub trait Subject: Send {
     fn next_di(&mut self, b: &DataItem) -> Out;
     fn reset(&mut self);
     fn dup(&self) -> Box<dyn Subject>;
+    fn as_any(&self) -> &dyn std::any::Any;
+    /// `Clone::clone_from`: make `self` a copy of `other` (same indicator type); false if the types differ.
+    fn assign_from(&mut self, other: &dyn Subject) -> bool;
     fn ser(&self) -> Result<Vec<u8>, String>;
     fn de(&self, bytes: &[u8]) -> Result<Box<dyn Subject>, String>;
     fn ser_json(&self) -> Result<String, String>;
@@ -352,6 +355,18 @@ macro_rules! subject_impl {
             }
             fn dup(&self) -> Box<dyn Subject> {
                 Box::new($wrap(self.0.clone()))
+            }
+            fn as_any(&self) -> &dyn std::any::Any {
+                self
+            }
+            fn assign_from(&mut self, other: &dyn Subject) -> bool {
+                match other.as_any().downcast_ref::<$wrap>() {
+                    Some(o) => {
+                        self.0.clone_from(&o.0);
+                        true
+                    }
+                    None => false,
+                }
             }
             fn ser(&self) -> Result<Vec<u8>, String> {
                 bincode::serialize(&self.0).map_err(|e| e.to_string())
